@@ -1105,6 +1105,10 @@ def _rich_add(d, table):
         name = f"AddedEnum{n}"
         table[name] = {"k": "enum", "name": name, "aliases": [], "symbols": ["P", "Q", "R"]}
         return {"k": "ref", "name": name}, d.choice(["P", "R"])
+    earlier = [k for k in table if k.startswith("AddedRec")]
+    if w in ("record", "union-record") and earlier and d.p(0.6):
+        # the type already exists: the field refers to it BY NAME and its default still has to be completed
+        return ({"k": "ref", "name": earlier[0]} if w == "record" else {"k": "union", "branches": [{"k": "ref", "name": earlier[0]}, {"k": "null"}]}), d.choice([{"q": []}, {"q": ["y"], "p": 2}])
     if w in ("record", "union-record", "nested"):
         name = f"AddedRec{n}"
         table[name] = {"k": "record", "name": name, "aliases": [], "fields": [
